@@ -168,12 +168,13 @@ def oracle_ensure(which, shapes, out, note):
                     % (tuple(s), tuple(out[2:])))
         if layout_ok_for_e1d(s) and (s[0] != 1 or len(s) <= 2) and out != [1, 2, s[0], 1]:
             return 'ensure_1d_with_singleton did not normalise %s to (%d, 1): %s' % (tuple(s), s[0], out)
-    if which == 0 and len(shapes) == 1 and len(shapes[0]) in (1, 2):
+    if which == 0 and len(shapes) == 1 and len(shapes[0]) >= 1:
         s = shapes[0]
-        if (len(s) == 1 or s[1] == 1) and out != [1, 1, s[0]]:
+        if (len(s) == 1 or (len(s) == 2 and s[1] == 1)) and out != [1, 1, s[0]]:
             return 'ensure_vector did not normalise %s to (%d,): %s' % (tuple(s), s[0], out)
-        if len(s) == 2 and s[1] != 1 and out[0] >= 0:
-            return 'ensure_vector accepted the multi-column shape %s' % (tuple(s),)
+        if len(s) >= 2 and int(np.prod(s[1:])) != 1 and out[0] >= 0:
+            return ('ensure_vector accepted the multi-column shape %s (returned shape %s) instead of raising'
+                    % (tuple(s), tuple(out[2:])))
     return None
 
 
@@ -583,6 +584,8 @@ def entries():
             a = dict(cycles=d['cv'][:, None].copy(), values=d['IF'][:, :1].copy())
         if v == 'values-n1':
             a['values'] = d['IF'][:, :1].copy()
+        if v == 'values-n12':
+            a['values'] = np.stack([d['IF'][:, :1], d['IA'][:, :1]], axis=2)
         if v == 'short-values':
             a['values'] = a['values'][:-1].copy()
         if v == 'short-cycles':
@@ -591,7 +594,7 @@ def entries():
     for out in (None, 'samples'):
         L.append(E('get_cycle_stat(out=%s)' % out, 'cycles', b_stat,
                    (lambda out: lambda a, o: cycles.get_cycle_stat(a['cycles'], a['values'], out=out, func=np.mean))(out),
-                   ('n1', 'values-n1'), mism=('short-values', 'short-cycles')))
+                   ('n1', 'values-n1'), ('values-n12',), mism=('short-values', 'short-cycles')))
 
     def b_pa(d, v):
         a = dict(ip=d['IP'][:, 0].copy(), x=d['IF'][:, 0].copy(), cycles=d['cv'].copy())
@@ -639,6 +642,31 @@ def entries():
         c = cycles.Cycles(a['IP'])
         return c.cycle_vect, np.asarray(c.metrics['is_good'])
     L.append(E('Cycles(IP)', 'cycles', lambda d, v: (dict(IP=lay(d['IP'][:, 0], 'n' if v == 'ref' else v)), {}), call_cycles, ('n1',)))
+
+    # further public helpers taking arrays (non-mutation / read-only / determinism; layouts where documented)
+    L.append(E('get_cycle_vector_from_waveform', 'cycles', lambda d, v: (dict(imf=lay(d['imf'][:, 0], 'n' if v == 'ref' else v)), {}),
+               lambda a, o: cycles.get_cycle_vector_from_waveform(a['imf'], cycle_start='peaks'), ('n1', 'n11')))
+    L.append(E('is_good', 'cycles', lambda d, v: (dict(phase=d['IP'][:40, 0].copy(), wf=d['imf'][:40, 0].copy()), {}),
+               lambda a, o: cycles.is_good(a['phase'], waveform=a['wf'], ret_all_checks=True)))
+    L.append(E('get_subset_vector/get_chain_vector', 'cycles', lambda d, v: (dict(valids=(np.arange(12) % 4 != 1)), {}),
+               lambda a, o: (cycles.get_subset_vector(a['valids']), cycles.get_chain_vector(cycles.get_subset_vector(a['valids'])))))
+    L.append(E('normalised_waveform', 'cycles', lambda d, v: (dict(f=(np.abs(d['IF'][:48, :2]) + 0.01 if v == 'ref' else np.abs(d['IF'][:48, 0]) + 0.01)), {}),
+               lambda a, o: cycles.normalised_waveform(a['f'])))
+    L.append(E('normalised_waveform(one cycle)', 'cycles', lambda d, v: (dict(f=lay(np.abs(d['IF'][:48, 0]) + 0.01, 'n' if v == 'ref' else v)), {}),
+               lambda a, o: cycles.normalised_waveform(a['f']), ('n1',)))
+    L.append(E('basis_project', 'cycles', lambda d, v: (dict(X=d['IF'][:48].copy()), {}), lambda a, o: cycles.basis_project(a['X'], ncomps=2)))
+    L.append(E('kdt_match', 'cycles', lambda d, v: (dict(x=d['IA'][:20, :2].copy(), y=d['IA'][20:45, :2].copy()), {}),
+               lambda a, o: cycles.kdt_match(a['x'], a['y'], K=3)))
+    L.append(E('est_orthogonality', 'amplitude', lambda d, v: (dict(imf=d['imf'].copy()), {}), lambda a, o: utils.est_orthogonality(a['imf'])))
+    L.append(E('find_extrema_locked_epochs/apply_epochs', 'envelope', lambda d, v: (dict(X=d['x'].copy(), X2=d['imf'].copy()), {}),
+               lambda a, o: utils.apply_epochs(a['X2'], utils.find_extrema_locked_epochs(a['X'], 8))))
+    L.append(E('get_mask_freqs(zc)', 'sift', lambda d, v: (dict(X=lay(d['x'], 'n1')), dict(imf_opts=sift_opts()['imf_opts'])),
+               lambda a, o: sift.get_mask_freqs(a['X'], 'zc', **o)))
+    L.append(E('get_mask_freqs(if)', 'sift', lambda d, v: (dict(X=lay(d['x'], 'n1')), dict(imf_opts=sift_opts()['imf_opts'])),
+               lambda a, o: sift.get_mask_freqs(a['X'], 'if', **o)))
+    L.append(E('sd_stop/rilling_stop/energy_stop', 'sift',
+               lambda d, v: (dict(a=d['imf'][:, :1].copy(), b=d['imf'][:, 1:2].copy(), up=np.abs(d['IA'][:, 0]) + 1, lo=-np.abs(d['IA'][:, 0]) - 0.9), {}),
+               lambda a, o: (sift.sd_stop(a['a'], a['b']), sift.rilling_stop(a['up'], a['lo']), sift.energy_stop(a['a'], a['b']))))
     return L
 
 
@@ -785,7 +813,9 @@ def check_option_reuse(ctx, k, n, report=True):
                     ra = canon(fn(args))
             except Exception as e:
                 ctx.discarded += 1
-                ctx.notes.append('%s(sift_args=%s) raised %s - owned by C03, not compared here' % (site, shown, type(e).__name__))
+                msg = '%s(sift_args=%s) raised %s - owned by C03, not compared here' % (site, shown, type(e).__name__)
+                if msg not in ctx.notes:
+                    ctx.notes.append(msg)
                 ra = None
             ctx.count((site, k, shown), True, 'options:second-layer')
             ctx.exact_cmp += 1
@@ -828,13 +858,14 @@ def check_option_reuse(ctx, k, n, report=True):
 def run(ctx):
     quiet()
     n = 128
-    sigs = [0] if ctx.quick() else [0, 1, 2, 3]
+    sigs = [(0, 128)] if ctx.quick() else [(0, 128), (1, 128), (2, 192), (3, 96), (4, 256), (5, 128), (6, 64), (7, 160)]
+    sigs = [(k + 8 * (ctx.seed % 50), nk) for k, nk in sigs]          # VERIF_SEED selects another family of signals
     ctx.rule = ('PROVED (Coq, all shapes of any rank): the normalisers and ensure_equal_dims of emd/support.py.  CORRESPONDENCE: every shape of '
                 'rank <= 3 over {1,2,3,5} + rank 0/4 + zero-length axes through ensure_vector / ensure_1d_with_singleton / ensure_2d singly '
                 'and in pairs (result shapes, error class, data order, exact), ensure_equal_dims on all pairs/triples x dim None,0..3, and the '
                 'entry-point validation of hilberthuang/phase_align/bin_by_phase/get_cycle_vector(mask) (returns iff the model accepts).  '
                 'ORACLE, NOT PROVED (Python heap / floating point of the real routines): for each public numeric entry point of emd.sift, '
-                'emd.spectra, emd.cycles, emd.utils on %d signal(s) of %d samples: identical bytes across the layouts its contract accepts, '
+                'emd.spectra, emd.cycles, emd.utils on %d signal(s) of 64..256 samples (quick: %d): identical bytes across the layouts its contract accepts, '
                 'an exception for (n,2), (1,n), (n,2,3) input to the six single-signal sift routines and for mismatched lengths in multi-array '
                 'routines, arrays and option dictionaries byte-identical (type-sensitive: tuple != list) after every call, read-only arrays '
                 'accepted with the same result, repeated call byte-identical (ensemble variants: np.random seeded identically, nprocesses=1).  '
@@ -849,10 +880,10 @@ def run(ctx):
     ctx.exhaustive = True
     # ---- oracle on the entry points
     ents = [e for e in entries() if e['tier'] == 'quick' or not ctx.quick()]
-    for k in sigs:
+    for k, nk in sigs:
         for e in ents:
-            check_entry(ctx, e, k, n)
-        check_option_reuse(ctx, k, n)
+            check_entry(ctx, e, k, nk)
+        check_option_reuse(ctx, k, nk)
     ctx.sample(dict(entry='sift', layouts=['(128,)', '(128,1)', '(128,1,1)', '(128,1,1,1)'], rejected=['(128,2)', '(1,128)', '(128,2,3)'], signal=0))
     ctx.sample(dict(entry='hilberthuang', layouts=['vector', 'column', 'mixed'], mismatched=['inam one sample short', '2-d infr three samples short']))
     have = any(p['kind'] == 'impl-violation' for p in ctx.problems)
@@ -881,7 +912,7 @@ def replay(rec):
         out, note = impl_ensure(i['which'], i['shapes'])
         print(ENSURE_NAMES[i['which']], i['shapes'], '->', out, note)
         if rec.get('kind') == 'correspondence-break':
-            return out != rec.get('expected')
+            return out == rec.get('observed')       # the implementation still behaves as recorded
         return bool(oracle_ensure(i['which'], i['shapes'], out, note))
     if i['check'] == 'equal_dims':
         out = impl_equal_dims(i['dim'], i['shapes'])
